@@ -29,9 +29,10 @@ RULES = {
     "R7": "combination filter: reference rows are the rows with no control column",
     "R8": "the derived screen attributes this property's code relies on (size, unique_sample_ids, n_unique_samples, unique_plate_ids) have their documented definitions in ScreenBase and every override",
     "R9": "the view algebra this property's code relies on: plates = one view per unique plate id, get_plate = the rows with that id, subset_(un)observed, combine / concat as unions over one parent (C14.R3 run here)",
+    "R11": "the per-sample minimum smoother keeps exactly the rows of the samples it does not drop: each narrowing is acc AND (sample_ids != dropped id) under count < min_n_cell_line_plates (operator precedence of & against != is reported)",
     "R10": "constructor options are live: every attribute the constructor binds from a parameter is read by a method of the class",
 }
-MIN = {"R1": 4, "R2": 3, "R3": 8, "R4": 6, "R5": 2, "R6": 4, "R7": 2, "R8": 4, "R9": 8, "R10": 1}
+MIN = {"R1": 4, "R2": 3, "R3": 8, "R4": 6, "R5": 2, "R6": 4, "R7": 2, "R8": 4, "R9": 8, "R10": 1, "R11": 1}
 TRUSTED = ["np.array_split(v, n) returns n pieces whose sizes differ by at most one and partition v", "heapq pops the minimum under __lt__",
            "lemma: ceil(L / ceil(L/m)) <= m for integers L >= 1, m >= 1"]
 TECHNIQUE = "must-pass-through on the CFG, def-use slices, relational normal forms of the size comparisons, id-scope typestate"
@@ -1068,7 +1069,74 @@ def r_options(ctx):
     common.options_are_live(ctx, "R10", sorted(q for q in ctx.R.classes if q.startswith("batchie.retrospective.")), exempt=())
 
 
-RULE_FUNCS = [r1, r2, r3, r4, r5, r6, r7, r_derived, r_views, r_options]
+def r11(ctx):
+    """NPlatePerCellLineSmoother: the rows kept are those of the samples that are not dropped - every narrowing of the accumulated row
+    vector is `acc AND (S.sample_ids != dropped id)`, under the test `count < self.min_n_cell_line_plates`.  `acc & ids != sid` without the
+    parentheses is `(acc & ids) != sid`: Python's `&` binds tighter than a comparison - recognised and reported."""
+    f = ctx.fn(f"{RETRO}.NPlatePerCellLineSmoother._smooth_plates")
+    S = f.params[1]
+    N = Norm(strict=False)
+    accs = {n.targets[0].id for n in walk_own(f.node) if isinstance(n, ast.Assign) and len(n.targets) == 1 and isinstance(n.targets[0], ast.Name)
+            and U(n.value).replace(" ", "") in (f"np.ones({S}.size,dtype=bool)", f"np.ones(len({S}.observations),dtype=bool)", f"np.ones({S}.size,bool)")}
+    ctx.need(len(accs) == 1, f"{f.site()}: the all-true vector of retained rows (np.ones({S}.size, dtype=bool)) was not found")
+    acc = next(iter(accs))
+    ups = []
+    for n in walk_own(f.node):
+        if isinstance(n, ast.AugAssign) and U(n.target) == acc:
+            ups.append((n, n.value if isinstance(n.op, ast.BitAnd) else None, n.op))
+        elif isinstance(n, ast.Assign) and len(n.targets) == 1 and U(n.targets[0]) == acc and not (isinstance(n.value, ast.Call) and call_name(n.value) == "np.ones"):
+            ups.append((n, n.value, None))
+    ctx.need(len(ups) >= 1, f"{f.site()}: no narrowing of `{acc}` found")
+    par_ = enclosing_map(f.node)
+    for k, (st, val, op) in enumerate(ups):
+        site = f"{f.site()}::narrowing#{k}"
+        if isinstance(st, ast.Assign):
+            # acc = acc & (ids != sid)      or the slip      acc = acc & ids != sid
+            if isinstance(val, ast.Compare) and isinstance(val.left, ast.BinOp) and isinstance(val.left.op, (ast.BitAnd, ast.BitOr)) and acc in names_in(val.left):
+                ctx.bad("R11", site, f"`{U(st)}` parses as `({U(val.left)}) {U(val)[len(U(val.left)):].strip()}`: `&` binds tighter than the comparison, so the vector of retained rows "
+                        f"is combined with the id column first and the result compared with the id - the rows kept are not `{acc} AND (sample id differs)`")
+                continue
+            other = None
+            if isinstance(val, ast.BinOp) and isinstance(val.op, ast.BitAnd):
+                other = val.right if U(val.left) == acc else (val.left if U(val.right) == acc else None)
+            elif isinstance(val, ast.Call) and call_name(val) == "np.logical_and" and len(val.args) == 2:
+                other = val.args[1] if U(val.args[0]) == acc else (val.args[0] if U(val.args[1]) == acc else None)
+        else:
+            if isinstance(val, ast.Compare) is False and val is None:
+                raise AnalysisError(f"{f.site()}: `{U(st)}` updates `{acc}` with an operator other than &=")
+            other = val
+        if other is None:
+            raise AnalysisError(f"{f.site()}: `{U(st)[:80]}` is not `{acc} = {acc} & <rows to keep>`; not a form this rule reads")
+        # the dropped id: the loop variable that the guard's count belongs to
+        guards = []
+        n_ = st
+        while n_ in par_:
+            p_ = par_[n_]
+            if isinstance(p_, ast.If):
+                guards.append((p_.test, any(n_ is b_ for b_ in p_.body)))
+            n_ = p_
+        sid = None
+        if isinstance(other, ast.Compare) and len(other.ops) == 1 and isinstance(other.ops[0], ast.NotEq):
+            l, r = U(other.left), U(other.comparators[0])
+            sid = r if l == f"{S}.sample_ids" else (l if r == f"{S}.sample_ids" else None)
+        ok_form = sid is not None and sid.isidentifier()
+        ok_guard = any(pol and N.b(t, integer=True)[0] == "cmp" and "min_n_cell_line_plates" in U(t) and
+                       N.b(t, integer=True) == N.b(parse_expr(f"{U(t.left) if isinstance(t, ast.Compare) and 'min_n' not in U(t.left) else U(t.comparators[0])} < self.min_n_cell_line_plates"), integer=True)
+                       for t, pol in guards if isinstance(t, ast.Compare))
+        if not ok_form:
+            raise AnalysisError(f"{f.site()}: `{U(st)[:80]}` does not narrow `{acc}` by `{S}.sample_ids != <id>`; not a form this rule reads")
+        if not ok_guard and not any("min_n_cell_line_plates" in U(t) for t, _ in guards):
+            raise AnalysisError(f"{f.site()}: the narrowing `{U(st)[:60]}` is not under a comparison with self.min_n_cell_line_plates that this rule can read ({[U(t) for t, _ in guards]})")
+        ctx.check("R11", site, ok_form and ok_guard, f"`{acc}` is narrowed to the rows whose sample id differs from a sample with fewer than min_n_cell_line_plates plates",
+                  f"`{U(st)[:90]}` under {[U(t) for t, _ in guards]}: not `{acc} AND ({S}.sample_ids != <dropped sample>)` for samples with count < self.min_n_cell_line_plates")
+
+
+def stmt_conditions_of(f):
+    from engine.astutil import stmt_conditions
+    return stmt_conditions(f.node.body)
+
+
+RULE_FUNCS = [r1, r2, r3, r4, r5, r6, r7, r_derived, r_views, r_options, r11]
 
 
 def run(ctx):
@@ -1085,6 +1153,10 @@ def _rep(a, b):
 
 
 WITNESSES = [
+    ("parentheses of the narrowing dropped", "batchie.retrospective",
+     _rep("selection_vector = selection_vector & (screen.sample_ids != sample_id)", "selection_vector = selection_vector & screen.sample_ids != sample_id"), ["R11"]),
+    ("samples with exactly the minimum dropped too", "batchie.retrospective",
+     _rep("            if plate_count < self.min_n_cell_line_plates:", "            if plate_count <= self.min_n_cell_line_plates:"), ["R11"]),
     ("group columns sorted together with the sample column", "batchie.retrospective",
      _rep("        grouping_tuples = np.hstack([sample_id_col_vector, treatment_group_ids_sorted])\n", "        grouping_tuples = np.sort(np.hstack([sample_id_col_vector, treatment_group_ids]), axis=1)\n"), ["R2"]),
     ("small samples skipped again", "batchie.retrospective",
